@@ -70,6 +70,38 @@ Check (C01_reject_regardless_of_dialed :
   forall on_curve verify pb rs e dialed,
     verify_identity on_curve verify pb rs = Reject e ->
     accept on_curve verify pb rs dialed = Reject e).
+Check (C01_payload_last_key_wins :
+  forall k1 k2 sg,
+    len k1 < 128 -> len k2 < 128 -> len sg < 128 ->
+    decode_payload ([10; len k1] ++ k1 ++ [10; len k2] ++ k2 ++ [18; len sg] ++ sg)
+    = Some (mkPayload (Some k2) (Some sg))).
+Check (C01_payload_unknown_field_skipped :
+  forall key v sg,
+    len key < 128 -> v < 128 -> len sg < 128 ->
+    decode_payload ([10; len key] ++ key ++ [24; v] ++ [18; len sg] ++ sg)
+    = Some (mkPayload (Some key) (Some sg))).
+Check (C01_tls_accept_sound :
+  forall on_curve verify x spki expected p,
+    tls_accept on_curve verify x spki expected = Accept p ->
+    exists kb sg k,
+      x = TlsExt kb sg /\ decode_pubkey on_curve kb = KeyOk k /\
+      verify k (TLS_PREFIX ++ spki) sg = true /\
+      p = peer_id_of_key k /\ (expected = None \/ expected = Some p)).
+Check (C01_tls_accept_complete :
+  forall on_curve verify kb sg k spki expected,
+    decode_pubkey on_curve kb = KeyOk k -> verify k (TLS_PREFIX ++ spki) sg = true ->
+    (expected = None \/ expected = Some (peer_id_of_key k)) ->
+    tls_accept on_curve verify (TlsExt kb sg) spki expected = Accept (peer_id_of_key k)).
+Check (C01_tls_dialed_mismatch :
+  forall on_curve verify x spki p q,
+    tls_verify on_curve verify x spki = Accept p -> q <> p ->
+    tls_accept on_curve verify x spki (Some q) = Reject EMismatch).
+Check (C01_tls_binding :
+  forall (on_curve : bytes -> bool) (verify : bytes -> bytes -> bytes -> bool),
+    (forall pk m m' sg, verify pk m sg = true -> verify pk m' sg = true -> m = m') ->
+    forall x spki spki' e' p',
+      tls_accept on_curve verify x spki' e' = Accept p' -> spki <> spki' ->
+      forall e, tls_accept on_curve verify x spki e = Reject ETlsIssuer).
 Check (C01_binding :
   forall (on_curve : bytes -> bool) (verify : bytes -> bytes -> bytes -> bool),
     (forall pk m m' sg, verify pk m sg = true -> verify pk m' sg = true -> m = m') ->
@@ -214,6 +246,9 @@ Check (C01_early_data :
        <= V.C02.Model.pstart (V.C02.Model.e_plains e) j)).
 Check (C01_dy_attacker_knows_only_public :
   forall (asec bad : N -> Prop) tr t, DY.valid asec bad tr -> DY.knows asec bad tr t -> DY.pub asec bad t).
+Check (C01_dy_knowledge_monotone :
+  forall (asec bad : N -> Prop) tr tr' t,
+    incl tr tr' -> DY.knows asec bad tr t -> DY.knows asec bad tr' t).
 Check (C01_dy_secrets_never_leak :
   forall (asec bad : N -> Prop) tr,
     DY.valid asec bad tr ->
